@@ -38,7 +38,13 @@ pub enum Step {
     Stall,
     /// the same batch forever (an unbounded, always-ready input)
     Endless(Vec<Row>),
+    /// an unbounded input that keeps producing fresh rows: batch n holds `rows` rows with keys
+    /// base + stride * (row counter), s = "FILL", v = NULL, ids from FILLER_ID_BASE upwards
+    Filler { base: i64, stride: i64, rows: u64 },
 }
+
+pub const FILLER_ID_BASE: i64 = 50_000;
+pub const FILLER_KEY_BASE: i64 = 1_000;
 
 /// Same table with the string column as Utf8View (inline <= 12 bytes / buffer-backed > 12 bytes).
 pub fn table_schema_view() -> SchemaRef {
@@ -113,6 +119,12 @@ pub fn parse_script(v: &Value, part: usize) -> Option<Vec<Step>> {
                 "panic" => Step::Panic,
                 "stall" => Step::Stall,
                 _ => return None,
+            });
+        } else if let Some(f) = st.get("filler") {
+            out.push(Step::Filler {
+                base: f.get("base")?.as_i64()?.max(FILLER_KEY_BASE),
+                stride: f.get("stride")?.as_i64()?.clamp(1, 10),
+                rows: f.get("rows")?.as_u64()?.clamp(1, 16),
             });
         } else if let Some(b) = st.get("endless") {
             let mut rows = vec![];
